@@ -12,6 +12,14 @@ Step == /\ l >= 1 /\ l <= Len(Traces[tid].ev)
            THEN IF ev.drain = Drain(st) THEN l' = l + 1 /\ st' = <<>> /\ tid' = tid
                 ELSE /\ PrintT(<<"REJECT", ToJson([tid |-> tid, l |-> l, st |-> st, exp |-> {[drain |-> Drain(st)]}])>>)
                      /\ l' = 0 /\ UNCHANGED <<tid, st>>
+           ELSE IF ev.op.op \in {"bulk_add", "bulk_remove", "pop_n"}
+           (* queues of tens of thousands of entries: whole batches of calls per event (tasks within a batch distinct) *)
+           THEN LET nxt == CASE ev.op.op = "bulk_add" -> [ok |-> ev.len = Len(BulkAdd(st, ev.items)), s |-> BulkAdd(st, ev.items)]
+                             [] ev.op.op = "bulk_remove" -> [ok |-> ev.len = Len(BulkRemove(st, ev.tasks)), s |-> BulkRemove(st, ev.tasks)]
+                             [] OTHER -> LET pn == PopN(st, Len(ev.popped)) IN [ok |-> ev.popped = pn.popped /\ ev.len = Len(pn.rest), s |-> pn.rest] IN
+                IF nxt.ok THEN l' = l + 1 /\ st' = nxt.s /\ tid' = tid
+                ELSE /\ PrintT(<<"REJECT", ToJson([tid |-> tid, l |-> l, st |-> <<>>, exp |-> {[len |-> Len(nxt.s)]}])>>)
+                     /\ l' = 0 /\ UNCHANGED <<tid, st>>
            ELSE LET cand == Outcomes(st, ev.op)
                     ms == {o \in cand : o.r = ev.r /\ Len(o.s) = ev.len} IN
                 IF ms # {} THEN \E o \in ms : st' = o.s /\ l' = l + 1 /\ tid' = tid
